@@ -246,6 +246,16 @@ def specs(tier):
             S.append(_spec('rsa_private', impl, 4, size=1024, var='toolarge'))
             S.append(_spec('rsa_pkcs1_sign', impl, 4, size=1024, hash='sha1'))
             S.append(_spec('rsa_pss_sign', impl, 4, size=1024, hash='sha384', var='salt0'))
+    # factors whose bit length is a whole number of words (496 = 16 * 31; 930 = 30 * 31 = 62 * 15): the reduction and
+    # Montgomery code has its own paths for a full top word
+    for impl in RSA_IMPLS:
+        for sz in ([992] if q and impl not in ('i15', 'i31') else [992, 1860]):
+            c = 3 * (sz / 1024.0) ** 3 * (2.5 if impl == 'i15' else 1)
+            S.append(_spec('rsa_private', impl, c, size=sz))
+            if not q:
+                S.append(_spec('rsa_pkcs1_sign', impl, c, size=sz, hash='sha256'))
+                S.append(_spec('rsa_oaep_decrypt', impl, c, size=sz, hash='sha256', var='good'))
+                S.append(_spec('rsa_ssl_decrypt', impl, c, size=sz, var='good'))
     # the largest supported key reaches the reduced-window (low temporary space) path of modpow_opt
     S.append(_spec('rsa_private', 'i31', 120, size=4096))
     if not q:
